@@ -442,7 +442,15 @@ def run(ctx):
             if nm == "inet_address":
                 detail = src(a0)
                 hosts = mod.assigns.get("DEFAULT_HOST", [])
-                folded = sorted(m.fold(mod, h) for h in hosts)
+                # two conditional assignments, or one conditional expression
+                alts = []
+                for h in hosts:
+                    alts += [h.body, h.orelse] if isinstance(
+                        h, ast.IfExp) else [h]
+                try:
+                    folded = sorted(m.fold(mod, h) for h in alts)
+                except Unfoldable:
+                    folded = [src(h) for h in alts]
                 ok = isinstance(a0, ast.Name) and a0.id == "DEFAULT_HOST" \
                     and folded == ["", "localhost"]
                 detail += " in %r" % folded
